@@ -261,7 +261,7 @@ def event_profile(F, cb):
     pats = {'Model::actions': 'actions', 'Model::next_state': 'next_state', 'Model::within_boundary': 'within_boundary',
             'Model::properties': 'properties', 'DashMap::entry': 'visited-entry', 'VacantEntry::insert': 'visited-insert',
             'DashMap::contains_key': 'discovered?', 'DashMap::insert': 'discover', 'IdSet::remove': 'bit-clear',
-            'IdSet::contains': 'bit-test', 'CheckerVisitor::visit': 'visit', 'fetch_add': 'count',
+            'IdSet::contains': 'bit-test', 'IdSet::iter': 'bit-test', 'CheckerVisitor::visit': 'visit', 'fetch_add': 'count',
             'VecDeque::push_front': 'enqueue-front', 'VecDeque::push_back': 'enqueue-back'}
     for x in bodies_with_closures(F, b):
         for c in x.calls:
